@@ -155,3 +155,37 @@ Proof. exact p_esubst_deferred. Qed.
 Theorem C11_py_inst_resolves_pending : forall f i a b c d e x g v s, alookup i s = Some v ->
   p_inst f (ESub (MVar i a b c d e) x g) s = p_esubst f v x (p_inst f g s).
 Proof. exact p_inst_resolves. Qed.
+
+(** ** the generator-side laws for the configuration the CURRENT code is in ([flags_current], D9d present) on
+       corner-free inputs (Py/Bridge.v: [cfp]/[cfs] on notation-free patterns and maps, [corner_free]/[cfd] on
+       generator patterns and dicts).  Appended by builder "Py". *)
+From Pi2 Require Import Py.Bridge Py.Current.
+Theorem C11_py_inst_compose_current_code : forall se ss t s' s,
+  cfp se ss t = true -> cfs se ss s' = true -> cfs se ss s = true ->
+  p_inst flags_current (p_inst flags_current t s') s
+  = p_inst flags_current t (amap (fun v => p_inst flags_current v s) s' ++ unshadowed s s').
+Proof. exact (fun se ss => p_inst_comp_cur se ss flags_current). Qed.
+Theorem C11_py_inst_through_notation_current_code : forall se ss n p d r,
+  corner_free se ss p = true -> cfd se ss d = true -> py_inst flags_current n p d = Some r ->
+  expand flags_current r = p_inst flags_current (expand flags_current p) (expand_delta flags_current d).
+Proof. exact (fun se ss => py_inst_expand_cur se ss flags_current eq_refl). Qed.
+Theorem C11_py_esubst_through_notation_current_code : forall se ss n p x pl r,
+  corner_free se ss p = true -> mem x se = true -> corner_free se ss pl = true ->
+  py_esubst flags_current n p x pl = Some r ->
+  expand flags_current r = p_esubst flags_current (expand flags_current p) x (expand flags_current pl).
+Proof. exact (fun se ss => py_esubst_expand_cur se ss flags_current eq_refl). Qed.
+Theorem C11_py_ssubst_through_notation_current_code : forall se ss n p x pl r,
+  corner_free se ss p = true -> mem x ss = true -> corner_free se ss pl = true ->
+  py_ssubst flags_current n p x pl = Some r ->
+  expand flags_current r = p_ssubst flags_current (expand flags_current p) x (expand flags_current pl).
+Proof. exact (fun se ss => py_ssubst_expand_cur se ss flags_current eq_refl). Qed.
+Theorem C11_py_bridge_p_inst : forall se ss f t s, cfp se ss t = true -> cfs se ss s = true ->
+  p_inst f t s = p_inst (with_keep f) t s.
+Proof. exact p_inst_bridge. Qed.
+Theorem C11_py_bridge_p_esubst : forall se ss f t x b, cfp se ss t = true -> mem x se = true ->
+  p_esubst f t x b = p_esubst (with_keep f) t x b.
+Proof. exact p_esubst_bridge. Qed.
+Theorem C11_py_bridge_p_ssubst : forall se ss f t x b, cfp se ss t = true -> mem x ss = true ->
+  p_ssubst f t x b = p_ssubst (with_keep f) t x b.
+Proof. exact p_ssubst_bridge. Qed.
+Print Assumptions C11_py_inst_compose_current_code.
